@@ -287,8 +287,18 @@ def analyse_module(tree, relpath):
             _scan_class(node, node.name, scan)
     # memoising decorators: the cached *object* is handed to every later caller with equal arguments; if it is a
     # mutable container built in the call, one caller's in-place edit is served to the next
+    # (the call form `g = functools.lru_cache(maxsize=...)(f)` / `g = functools.cache(f)` memoises f just the same)
+    wrapped_by_call = {}
+    for n in ast.walk(tree):
+        if isinstance(n, ast.Call) and len(n.args) == 1 and isinstance(n.args[0], ast.Name):
+            head = n.func.func if isinstance(n.func, ast.Call) else n.func
+            nm = ast.unparse(head)
+            if nm.split(".")[-1] in ("lru_cache", "cache", "cached", "memoize"):
+                wrapped_by_call[n.args[0].id] = nm
     for fn in [n for n in ast.walk(tree) if isinstance(n, (ast.FunctionDef, ast.AsyncFunctionDef))]:
         decs = [ast.unparse(d.func if isinstance(d, ast.Call) else d) for d in fn.decorator_list]
+        if fn.name in wrapped_by_call:
+            decs.append(wrapped_by_call[fn.name])
         memo = [d for d in decs if d.split(".")[-1] in ("lru_cache", "cache", "cached", "memoize", "cached_property")]
         if not memo:
             continue
